@@ -90,6 +90,11 @@ WITNESSES = [
 ]
 
 
+import findings  # noqa: E402
+for _fn, _fi, _fb in findings.C21_WRAP:
+    BOUNDED.append({"name": _fn, "kind": "wrap-dbg-corpus", "props": ["C21"], "input": [_fi], "n_inputs": 1, "bound": _fb + "; every wrapped program must print the same standard output and end with the same status", "expect": {}})
+
+
 def build(tier):
     u = UnitFile("wrapdbg")
     u.raw(common.HEADER)
